@@ -543,6 +543,29 @@ func (c *FunctionComposer) Compose(ctx context.Context, xr *composite.Unstructur
 	xr.SetName(n)
 	xr.SetUID(u)
 
+	// Functions may not set system conditions (e.g. Ready and Synced). The XR
+	// reconciler derives those. We filter them from the conditions Functions
+	// return in their responses, so we must also not let them through when
+	// they're part of the desired XR's status.
+	if st, ok := xr.Object["status"].(map[string]any); ok {
+		if cs, ok := st["conditions"].([]any); ok {
+			keep := make([]any, 0, len(cs))
+			for _, c := range cs {
+				if m, ok := c.(map[string]any); ok {
+					if t, _ := m["type"].(string); xpv1.IsSystemConditionType(xpv1.ConditionType(t)) {
+						continue
+					}
+				}
+				keep = append(keep, c)
+			}
+			if len(keep) == 0 {
+				delete(st, "conditions")
+			} else {
+				st["conditions"] = keep
+			}
+		}
+	}
+
 	// NOTE(phisco): Here we are fine using a hardcoded field owner as there is
 	// no risk of conflict between different XRs.
 	if err := c.client.Status().Patch(ctx, xr, client.Apply, client.ForceOwnership, client.FieldOwner(FieldOwnerXR)); err != nil {
